@@ -269,6 +269,9 @@ def run(repo, R):
             "the screening test does not dominate the computation", where=ker.where(st))
     # ---------------------------------------------------------------- wrapper dispatch
     check_wrapper_dispatch(repo, wrap, R, "DISPATCH")
+    from ..flow import check_default_is
+    for f_ in (wrap, ker):
+        check_default_is(f_, R, "DISPATCH", "tol_screen", None, "no tolerance must mean no screening - also for a caller that does not pass one")
     # the tolerance reaches the predicate as given: no function on the way replaces it (e.g. switches screening off for a
     # whole basis on the strength of a global test)
     from ..formula import rebound_inputs, classify_rebinding
